@@ -235,7 +235,7 @@ def run(ctx):
     ctx.samples.append({"sweep": "cross_configuration", "case": {"op": jobs[0][0], "args": jobs[0][1]}})
     return finish(ctx, "PROVED here: equality of the twin constants regenerated from both languages, the wiggle default, the evaluation switch "
                   "literal, the declared type of the compiled binomial accumulator, and totality of the classification of the shim names "
-                  "enumerated from the AST of the six shim modules; eleven scalar Fortran kernels regenerated from the Fortran text (f902v_fn) equal "
+                  "enumerated from the AST of the six shim modules; twelve scalar Fortran kernels regenerated from the Fortran text (f902v_fn) equal "
                   "their regenerated Python twins (in_interval, cross_product, bbox, contains_nd, wiggle_interval, segment_intersection for every "
                   "value; bbox_intersect on planar nets; parallel_lines_parameters on planar points up to rational equality); the status-code -> exception map: one enum in status.h / _status.pxd / status.f90, "
                   "the two `switch (status)` of the compiled _speedup.c implement the if-chains of _speedup.pyx, and every exception of a status "
